@@ -1,3 +1,11 @@
-(* Glue/C01_glue.v — runner entry for C01 (see Glue/FramingGlue.v for the protocol). *)
-From NC Require Import Model.Base Glue.FramingGlue.
-Definition run (v : val) : val := framing_run v.
+(* Glue/C01_glue.v — runner entry for C01 (see Glue/FramingGlue.v for the protocol of functions 1-9).
+     fn 20 [world; VB stream; VL [VL [VN len ...] ...]] : the byte-level driver of a Junos use_filter session
+           (Model/JunosParse.v, instance Model/JunosSax.v) read by read - function 4 of Glue/C18_glue.v, same
+           encodings: C01 runs its message / segmentation families through it (the C01_handover theorems). *)
+From NC Require Import Model.Base Glue.FramingGlue Glue.C18_glue.
+Definition run (v : val) : val :=
+  match v with
+  | VL [VN 20; w; VB stream; VL cutsets] =>
+      let wd := dec_world w in VL (map (fun c => run_driver wd stream (dec_lens c)) cutsets)
+  | _ => framing_run v
+  end.
